@@ -157,9 +157,22 @@ func (it item) String() string {
 	return showShort(it.v)
 }
 
+const errorPanicked = "PANIC in Error(): "
+
+// errText renders an error value returned by Next; a panic inside its Error
+// method is part of the observation (and a violation where it is judged).
+func errText(err error) (s string) {
+	defer func() {
+		if r := recover(); r != nil {
+			s = errorPanicked + fmt.Sprint(r)
+		}
+	}()
+	return err.Error()
+}
+
 func mkItem(v any, polls, ticks int) item {
 	if err, ok := v.(error); ok {
-		return item{isErr: true, etype: fmt.Sprintf("%T", err), emsg: err.Error(), polls: polls, ticks: ticks}
+		return item{isErr: true, etype: fmt.Sprintf("%T", err), emsg: errText(err), polls: polls, ticks: ticks}
 	}
 	return item{v: v, polls: polls, ticks: ticks}
 }
@@ -723,6 +736,9 @@ func checkAdvance(sub string, c advCase) (string, advInfo) {
 			info.vals++
 		}
 		last = mkItem(v, 0, 0).String()
+		if strings.Contains(last, errorPanicked) {
+			return fmt.Sprintf("the Error method of error value #%d returned by Next panicked (after %d values): %s", info.errs, info.vals, last), info
+		}
 		if info.vals+info.errs > 5000 {
 			info.discard = "outputs"
 			return "", info
